@@ -330,6 +330,8 @@ fn cancel_case(case: u64, rng: &mut Rng, st: &mut Stats) {
             // effect and the caller observing it
             store.set_gate(true);
             store.set_gate_after(case % 2 == 1);
+            // every third case can also be dropped between a read's response and its consumer
+            store.set_gate_after_reads(case % 3 == 2);
             let mark = store.mark();
             let mut ex: ManualExec<'_, Result<(), String>> = ManualExec::new();
             let (c2, db2, nd, p2) = (c.clone(), db.clone(), new_doc.clone(), patch.clone());
@@ -363,6 +365,7 @@ fn cancel_case(case: u64, rng: &mut Rng, st: &mut Stats) {
             drop(ex);
             store.set_gate(false);
             store.set_gate_after(false);
+            store.set_gate_after_reads(false);
             if completed {
                 st.max(&format!("max_polls_to_complete:{api:?}"), k as u64);
                 if let Some(Err(e)) = result {
